@@ -109,3 +109,62 @@ if __name__ == "__main__":
     if cmd == "collect": collect()
     elif cmd == "confirm": confirm(args)
     elif cmd == "run": run(args, tier, prop)
+
+
+# ---------------------------------------------------------------------------------------------
+# benign refactorings (false-alarm test): seeded.py benign-collect | benign-run [ids]
+AREA_PROPS = {"B1": ["C01", "C02", "C03", "C05", "C06", "C07", "C15", "C16", "C17", "C18"],
+              "B2": ["C04", "C08", "C09", "C10", "C15", "C19", "C13"],
+              "B3": ["C15", "C16", "C17", "C18", "C20", "C02"],
+              "B4": ["C11", "C12", "C13", "C14", "C15", "C04"],
+              "B5": ["C18"],
+              "B6": ["C19"]}
+
+
+def benign_collect():
+    for out in sorted(glob.glob("/tmp/wtb/B*/_out/b*")):
+        area = out.split("/")[3]
+        dst = os.path.join(S, "benign-%s-%s" % (area, os.path.basename(out)))
+        if os.path.exists(dst) or not all(os.path.exists(os.path.join(out, f)) for f in ("patch.diff", "check.py", "meta.json")):
+            continue
+        shutil.copytree(out, dst)
+        print("collected", dst)
+
+
+def benign_run(sel, tier="quick"):
+    resf = os.path.join(S, "BENIGN_RESULTS.json")
+    results = json.load(open(resf)) if os.path.exists(resf) else {}
+    all_ = sorted(os.path.basename(p) for p in glob.glob(os.path.join(S, "benign-*")))
+    for i in [x for x in all_ if not sel or x in sel]:
+        d = os.path.join(S, i)
+        area = i.split("-")[1]
+        wt = worktree("benign-" + i)
+        try:
+            if sh("git -C %s apply %s/patch.diff" % (wt, d)).returncode:
+                print(i, "PATCH DOES NOT APPLY"); continue
+            env = dict(os.environ, PYTHONPATH=wt, MPLBACKEND="Agg", PYTHONDONTWRITEBYTECODE="1")
+            own = sh("%s %s/check.py" % (PY, d), env=env, cwd=wt, timeout=3600)
+            suite = sh("%s -m pytest -q -p no:cacheprovider 2>&1 | tail -1" % PY, cwd=wt, env=env, timeout=1800)
+            results.setdefault(i, {})["own_check_exit"] = own.returncode
+            results[i]["suite"] = suite.stdout.strip()[-60:]
+            for pid in AREA_PROPS.get(area, []):
+                evf = os.path.join(V, "evidence", pid + ".json")
+                keep = open(evf).read() if os.path.exists(evf) else None
+                t0 = time.time()
+                r = sh("./check %s --tier %s --repo %s" % (pid, tier, wt), cwd=V, timeout=7200)
+                if keep is not None:
+                    open(evf, "w").write(keep)
+                shutil.rmtree(os.path.join(V, "replays", pid), ignore_errors=True)
+                clauses = sorted({l.split("clause=")[1].strip() for l in r.stdout.splitlines() if l.startswith("VIOLATION") and "clause=" in l})
+                notes = [l for l in r.stdout.splitlines() if "MACHINERY" in l][:2]
+                results[i][pid] = {"exit": r.returncode, "clauses": clauses[:6], "notes": notes, "wall_s": round(time.time() - t0, 1)}
+                print(i, pid, "exit", r.returncode, clauses[:4], notes[:1], flush=True)
+                json.dump(results, open(resf, "w"), indent=1, sort_keys=True)
+        finally:
+            drop(wt)
+
+
+if __name__ == "__main__" and sys.argv[1] == "benign-collect":
+    benign_collect()
+if __name__ == "__main__" and sys.argv[1] == "benign-run":
+    benign_run([a for a in sys.argv[2:] if not a.startswith("--")])
